@@ -59,7 +59,8 @@ Zeros(n) == [k \in 1..n |-> 0]
 
 \* labs: the symbols that are statement labels (addresses), as opposed to EQU constants
 AcceptableInstr(s, env, addr, dps, labs) ==
-  IF s.form \in {"inh", "regs", "pair"} \/ (s.form = "idx" /\ s.sub # "off")
+  IF s.form = "idx" /\ s.reg \notin IdxRegs THEN RejectSt            \* not an index register
+  ELSE IF s.form \in {"inh", "regs", "pair"} \/ (s.form = "idx" /\ s.sub # "off")
   THEN LET E == EncAll(Instr(s, s.form, 0), addr, dps) IN IF E = {} THEN RejectSt ELSE St("accept", E)
   ELSE IF s.form \notin {"imm", "mem", "extind", "idx", "pcr", "rel"} THEN RejectSt
   ELSE
@@ -174,15 +175,29 @@ ClassOf(prog, env, k) ==
   IN [mnclass |-> MnClass(s.mn), mn |-> s.mn, form |-> s.form, sub |-> IF s.form = "idx" THEN s.sub ELSE "",
       ind |-> s.ind, force |-> s.force, reg |-> IF s.form = "idx" THEN s.reg ELSE "",
       valclass |-> IF ~usesval THEN "" ELSE IF e.ok THEN ValClass(e.v) ELSE e.why,
-      valsrc |-> IF usesval THEN ValSrc(prog, k) ELSE "", sp |-> IF usesval THEN SpOf(s.expr) ELSE "",
-      nvals |-> Len(s.vals), nchars |-> Len(s.chars), label |-> s.label # ""]
+      valsrc |-> IF usesval THEN ValSrc(prog, k)
+                 ELSE IF s.form \in {"fcb", "fdb"} THEN (IF \E j \in DOMAIN s.vals : SymsOfE(s.vals[j]) # {} \/ s.vals[j].op # "" THEN "sym-list" ELSE "lit")
+                 ELSE "",
+      sp |-> IF usesval THEN SpOf(s.expr) ELSE "",
+      nvals |-> Len(s.vals), nchars |-> Len(s.chars), label |-> s.label # "",
+      strclass |-> IF s.form # "fcc" THEN "" ELSE
+         LET c == s.chars  n == Len(s.chars)
+             outside == {32, 59, 92, 96, 123, 124, 125, 126}        \* not in the README line grammar's operand alphabet
+         IN (IF n = 0 THEN "E" ELSE "") \o (IF \E j \in 1..n : c[j] = 32 THEN "S" ELSE "")
+            \o (IF \E j \in 1..(n - 1) : c[j] = 32 /\ c[j + 1] = 32 THEN "R" ELSE "")
+            \o (IF n > 0 /\ c[1] = 32 THEN "L" ELSE "") \o (IF n > 0 /\ c[n] = 32 THEN "T" ELSE "")
+            \o (IF \E j \in 1..n : c[j] = 59 THEN ";" ELSE "")
+            \o (IF \E j \in 1..n : c[j] \in outside \ {32, 59} THEN "O" ELSE "")
+            \o (IF \E j \in 1..n : c[j] < 16 THEN "c" ELSE ""),
+      delim |-> IF s.form = "fcc" THEN s.expr.l.sp ELSE "",
+      shape |-> IF Plain(prog) THEN "plain" ELSE IF Cardinality(OrgIdx(prog)) > 1 THEN "multi-org" ELSE "code-before-org"]
 
 \* ------------------------------------------------------------------ the certificate
 \* t = [id, prog, obs, outcome, diag_k, image, symtab, origin]
 Item(c, k, cls, sym) == [clause |-> c, k |-> k, class |-> cls, symptom |-> sym]
 NoSym == [dlen |-> 0, dres |-> 0, got |-> <<>>, why |-> ""]
 NoClass == [mnclass |-> "", mn |-> "", form |-> "", sub |-> "", ind |-> FALSE, force |-> "", reg |-> "", valclass |-> "", valsrc |-> "", sp |-> "",
-            nvals |-> 0, nchars |-> 0, label |-> FALSE]
+            nvals |-> 0, nchars |-> 0, label |-> FALSE, strclass |-> "", delim |-> "", shape |-> ""]
 Prefix8(b) == IF Len(b) <= 8 THEN b ELSE SubSeq(b, 1, 8)
 
 JudgeAccepted(t) ==
@@ -209,7 +224,7 @@ JudgeAccepted(t) ==
                                                                        /\ \A i \in 1..(j - 1) : obs[i].bytes # <<>> => obs[i].addr = t.origin + offs[i]}}
       \cup {Item("org", k, cls(k), sym(k)) : k \in {j \in 1..n : prog[j].mn = "ORG" /\ LET e == Eval(env, prog[j].expr) IN e.ok /\ obs[j].addr # e.v % 65536}}
       \cup {Item("first", 1, cls(1), sym(1)) : k \in {j \in {1} : n >= 1 /\ prog[1].mn # "ORG" /\ obs[1].addr # 0}}
-      \cup {Item("image", 0, NoClass, NoSym) : k \in {j \in {1} : t.image # FlattenSeq([i \in 1..n |-> obs[i].bytes])}}
+      \cup {Item("image", 0, [NoClass EXCEPT !.shape = cls(1).shape], NoSym) : k \in {j \in {1} : n >= 1 /\ t.image # FlattenSeq([i \in 1..n |-> obs[i].bytes])}}
       \cup {Item("symtab", FirstDef(prog, s), cls(FirstDef(prog, s)), [NoSym EXCEPT !.got = <<symval(s)>>]) : s \in {x \in DOMAIN env : symval(x) # env[x] % 65536}}
       \cup {Item("symextra", 0, NoClass, NoSym) : k \in {j \in DOMAIN t.symtab : t.symtab[j].s \notin Defined(prog)}}
       \cup {Item("dup", k, cls(k), NoSym) : k \in DupAt(prog)}
